@@ -4,6 +4,7 @@ import (
 	"encoding/json"
 	"fmt"
 	"path"
+	"regexp"
 	"sort"
 	"strings"
 	"sync"
@@ -130,7 +131,7 @@ func c04Gen(seed uint64, idx int, maxFaults int) *c04Case {
 				c.MustReject = s
 			}
 		}
-		switch kind := r.Intn(15); kind {
+		switch kind := r.Intn(16); kind {
 		case 0:
 			ft.Kind = "lost-file"
 			gone[fi] = true
@@ -211,6 +212,11 @@ func c04Gen(seed uint64, idx int, maxFaults int) *c04Case {
 			nl := append([]idlgen.Line(nil), lines[fi][:li+1]...)
 			nl = append(nl, l)
 			lines[fi] = append(nl, lines[fi][li+1:]...)
+		case 15:
+			ft.Kind = "stat-eio"
+			c.FSFaults = append(c.FSFaults, simrt.FSFault{Op: "stat", Match: fpath, Nth: 0, Kind: "EIO"})
+			// the search for the file cannot see it: behaves like a missing file unless another
+			// candidate path names the same file (the first probe is the only one that fails)
 		case 14:
 			// misdirected write: the contents of two files of the set are exchanged
 			ft.Kind = "swapped-files"
@@ -369,7 +375,11 @@ func c04Judge(c *c04Case, wr *worldRun) *c04Verdict {
 	all := wr.Stdout + "\n" + wr.Stderr
 	for _, mark := range []string{"Recovered from panic", "goroutine ", "fatal error", "panic: "} {
 		if strings.Contains(all, mark) {
-			return bad("go-panic-trace", "the command printed a Go panic / fatal error trace (%q): %s", mark, clip(all, 700))
+			bad("go-panic-trace", "the command printed a Go panic / fatal error trace (%q): %s", mark, clip(all, 700))
+			// name the function that panicked (first thriftgo frame below the panic), so that a known crash
+			// site can be told from a new one
+			v.Sig += "@" + panicSite(all)
+			return v
 		}
 	}
 	wrote := 0
@@ -618,6 +628,14 @@ func c04ReplayOK(a *artefacts, rf *replayFile) (bool, string) {
 
 func c04Replay(a *artefacts, p string) int {
 	rf := readReplay(p)
+	{
+		var c c04Case
+		if json.Unmarshal(rf.Payload, &c) == nil {
+			if wr := runWorld(a, c.spec()); wr.Res != nil || wr.Watchdog {
+				fmt.Printf("signature on this tree: %s\n", c04Judge(&c, wr).Sig)
+			}
+		}
+	}
 	ok, why := c04ReplayOK(a, rf)
 	if ok {
 		fmt.Printf("VIOLATION property=C04 replay=%s\n  reproduced: %s\n  %s\n", p, rf.Sig, rf.Msg)
@@ -625,4 +643,24 @@ func c04Replay(a *artefacts, p string) int {
 	}
 	fmt.Printf("replay of %s did not reproduce the recorded violation on this tree: %s\n", p, why)
 	return 0
+}
+
+var panicFrameRe = regexp.MustCompile(`github\.com/cloudwego/thriftgo/([A-Za-z0-9_/]+)\.(\(\*?[A-Za-z0-9_]+\)\.)?([A-Za-z0-9_]+)`)
+
+// panicSite returns "pkg.Func" of the first thriftgo frame after the runtime's panic frame.
+func panicSite(out string) string {
+	i := strings.LastIndex(out, "\npanic(")
+	if i < 0 {
+		i = 0
+	}
+	for _, m := range panicFrameRe.FindAllStringSubmatch(out[i:], -1) {
+		if strings.HasPrefix(m[1], "internal/verifsim") || m[3] == "handlePanic" || m[3] == "func1" {
+			continue
+		}
+		if t := strings.Trim(m[2], "().*"); t != "" {
+			return m[1] + "." + t + "." + m[3]
+		}
+		return m[1] + "." + m[3]
+	}
+	return "unknown"
 }
